@@ -29,7 +29,7 @@ open VgiVerif.JsonSchema (JV Schema Atom F Pat fullMatch)
 abbrev Key := VgiVerif.Gen.C34.Key
 namespace G
 export VgiVerif.Gen.C34 (schema msgLimit emptyFallback emitBase emitCond emitOnce pipeViaHelper httpMsgHelper telemetryOnce
-  okStatus unaryErr initRaise exchangeRaise exchangeOvershoot producerTurn sentinelBase sentinelCond shedOrder
+  okStatus unaryErr initRaise exchangeRaise exchangeOvershoot producerTurn sidAtInit sidOnHit sidOnMiss sentinelBase sentinelCond shedOrder
   sentinelErrFallback egressCond egressOnce)
 end G
 
@@ -67,6 +67,9 @@ structure Env where
   requestId : Str                 -- "" = none
   httpRemote : Str                -- remote_addr of HTTP requests
   sid : Nat → Str                 -- uuid4().hex minted for the n-th stream call
+  cacheHit : Nat → Option Nat → Bool
+    -- does the request of the n-th call at cursor `some pos` (continuation / exchange turn) or its cancel (`none`) find the
+    -- call in the worker's call-state cache?  Arbitrary: cache size 0 / eviction by other streams / a cold worker all miss.
 
 /-- one formatted access-log line (the JSON object), field by field; `Bool` / `Option` = the key is present / absent -/
 structure Record where
@@ -355,6 +358,14 @@ namespace Http
 
 def amb (env : Env) (sid : Str) : Ambient := ⟨sid, true, true, env.httpRemote⟩
 
+/-- `_current_stream_id` while `/init` runs: set to the fresh id before the telemetry shell is entered -/
+def initSid (env : Env) (n : Nat) : Str := if G.sidAtInit then env.sid n else []
+
+/-- `_current_stream_id` while a continuation, exchange turn or cancel runs: `_unpack_and_recover_state` resolves the call
+from the cache (hit) or from the echoed call token (miss) and publishes the id it carries — on the paths the code does -/
+def contSid (env : Env) (n : Nat) (key : Option Nat) : Str :=
+  if (if env.cacheHit n key then G.sidOnHit else G.sidOnMiss) then env.sid n else []
+
 def msg (e : Exn) : Str := if G.httpMsgHelper then helperMsg e else []
 
 def stOf (o : Option Nat) : Nat := o.getD G.okStatus
@@ -409,7 +420,7 @@ def turnOutcome (items : List Item) (requestState : Bool) : Outcome :=
 
 /-- `POST /{method}/init` (`_run_stream_init_sync`) -/
 def init (env : Env) (brk : Nat → Bool) (n : Nat) (m : StreamM) : List Record :=
-  let a := amb env (env.sid n)
+  let a := amb env (initSid env n)
   match m.init with
   | some e => egress true (telemetry env a m.name { err := some e, http := stOf G.initRaise })
   | none =>
@@ -418,7 +429,7 @@ def init (env : Env) (brk : Nat → Bool) (n : Nat) (m : StreamM) : List Record 
 
 /-- producer continuation (`_run_stream_exchange_sync` → `_run_http_producer_turn`); the body is streamed: no length -/
 def cont (env : Env) (brk : Nat → Bool) (n : Nat) (m : StreamM) (pos : Nat) : List Record :=
-  egress false (telemetry env (amb env (env.sid n)) m.name
+  egress false (telemetry env (amb env (contSid env n (some pos))) m.name
     (turnOutcome (Engine.Http.serveContinuation brk m.steps pos) true))
 
 /-- exchange turn (`_run_http_exchange_turn`, `_exchange_error_response`) at cursor `pos`.  The function has three error
@@ -434,11 +445,11 @@ def exchOutcome (m : StreamM) (pos : Nat) (over : Option Exn) : Outcome :=
     | none => { requestState := true, responseState := true }
 
 def exch (env : Env) (n : Nat) (m : StreamM) (pos : Nat) (over : Option Exn) : List Record :=
-  egress true (telemetry env (amb env (env.sid n)) m.name (exchOutcome m pos over))
+  egress true (telemetry env (amb env (contSid env n (some pos))) m.name (exchOutcome m pos over))
 
 /-- the cancel branch of `_run_stream_exchange_sync` -/
 def cancel (env : Env) (n : Nat) (m : StreamM) : List Record :=
-  egress true (telemetry env (amb env (env.sid n)) m.name { cancelled := true, requestState := true })
+  egress true (telemetry env (amb env (contSid env n none)) m.name { cancelled := true, requestState := true })
 
 /-! ### `HttpStreamSession`: which requests a call makes -/
 
